@@ -376,7 +376,14 @@ func intrinsicTable0() map[string]func(ex *Exec, f *Frame, call *ssa.Call, args 
 			if s, ok := args[1].(StrV); ok && s.Lit != nil {
 				label = *s.Lit
 			}
-			ex.oblige("assert", label, reach, args[0].(*Term))
+			c := args[0].(*Term)
+			ex.oblige("assert", label, reach, c)
+			// assert-then-assume also for the path condition when the assertion is a small
+			// fact such as err == nil (keeps later terms simple); large assertions stay
+			// hypotheses only
+			if termSizeAtMost(c, 12) {
+				return nil, And(reach, c)
+			}
 			return nil, reach
 		},
 		"verifAssume": func(ex *Exec, f *Frame, call *ssa.Call, args []Value, reach *Term) (Value, *Term) {
@@ -432,4 +439,23 @@ func (ex *Exec) contentEq(a, b SliceV) *Term {
 func (ex *Exec) readElem(s SliceV, i *Term) *Term {
 	ks := ex.elemKinds(s.Elem)
 	return ex.mem.Read(ks[0], s.Arr, Add(s.Off, i), -1)
+}
+
+// termSizeAtMost: t has at most n nodes (as a tree).
+func termSizeAtMost(t *Term, n int) bool {
+	cnt := 0
+	var walk func(t *Term) bool
+	walk = func(t *Term) bool {
+		cnt++
+		if cnt > n {
+			return false
+		}
+		for _, a := range t.args {
+			if !walk(a) {
+				return false
+			}
+		}
+		return true
+	}
+	return walk(t)
 }
